@@ -43,6 +43,15 @@ FULL = 'full'           # every value of the type
 ANYF = 'finite'         # every finite float
 
 
+
+def _rel(path):
+    """source path relative to the analysed tree (/repo, or the GLM_REPO override of the developer tools), with any ../ of an include chain folded"""
+    import os
+    from laneflow import build as _B
+    q = os.path.normpath(path)
+    root = os.path.normpath(_B.REPO) + os.sep
+    return q[len(root):] if q.startswith(root) else q
+
 def ibox(T, lo, hi):
     return ('i', lo, hi)
 
@@ -112,6 +121,13 @@ def corpus(tier):
         add(F('isMultiple<%s>' % T, 'bool', [('x', T, inner), ('m', T, mult)], 'isMultiple(x, m)'), vec=('x', 'm'))
         for fn_ in ('ceilMultiple', 'floorMultiple', 'roundMultiple', 'nextMultiple', 'prevMultiple'):
             add(F('%s<%s>' % (fn_, T), T, [('x', T, inner), ('m', T, mult)], '%s(x, m)' % fn_), vec=('x', 'm'))
+    # the multiples again at the two ends of the signed 32- / 64-bit ranges, where the answer is still representable (max - 1 and min + 2 are multiples of 3 for both widths):
+    # one-point boxes - the conservative boxes above stay a quarter of the range away from the ends, and an intermediate like (x - 1) + m only overflows within m of them
+    for T, w in (('int', 32), ('int64', 64)):
+        top, bot = (1 << (w - 1)) - 2, -(1 << (w - 1)) + 2
+        for fn_ in ('ceilMultiple', 'floorMultiple', 'roundMultiple', 'nextMultiple', 'prevMultiple'):
+            add(F('%s<%s>@top' % (fn_, T), T, [('x', T, (top, top)), ('m', T, (3, 3))], '%s(x, m)' % fn_))
+            add(F('%s<%s>@bottom' % (fn_, T), T, [('x', T, (bot, bot)), ('m', T, (3, 3))], '%s(x, m)' % fn_))
     # carries
     add(F('uaddCarry', 'uint', [('x', 'uint', FULL), ('y', 'uint', FULL)], '[&]{ glm::uint c; return uaddCarry(x, y, c) + c; }()'))
     add(F('usubBorrow', 'uint', [('x', 'uint', FULL), ('y', 'uint', FULL)], '[&]{ glm::uint c; return usubBorrow(x, y, c) ^ c; }()'))
@@ -540,7 +556,7 @@ def judge_of(f, k):
             kind = KINDS.get(tr['kind'], 'kind%d' % tr['kind'])
             n = seen[kind] = seen.get(kind, 0) + 1
             oid = '%s.%s%s' % (f.name, kind, '' if n == 1 else '#%d' % n)
-            where = ['%s:%d %s' % (fr[0].replace('/repo/', ''), fr[1], fr[2]) for fr in (tr['dbg'] or [])][:4]
+            where = ['%s:%d %s' % (_rel(fr[0]), fr[1], fr[2]) for fr in (tr['dbg'] or [])][:4]
             cond = tr['cond']
             ct = cond.to_term()
             why = excused(f.name, kind)
